@@ -21,3 +21,14 @@ pub fn t_replace(mut a: usize) -> (usize, usize) { let o = core::mem::replace(&m
 pub fn t_fnitem(x: Option<f64>) -> f64 { x.unwrap_or_else(f64::default) }
 pub fn t_ctor(x: Option<usize>) -> Option<Option<usize>> { x.map(Some) }
 pub fn t_min(a: usize, b: usize) -> usize { core::cmp::min(a, b) }
+pub fn t_arr_for_each(a: usize, b: usize) -> usize { let mut s = 0usize; [a, b].into_iter().for_each(|x| s = s.wrapping_sub(x)); s }
+pub fn t_arr_map_find(a: usize, b: usize) -> Option<usize> { [a, b].into_iter().map(|x| x / 2).find(|&c| c < 2) }
+pub fn t_arr_fold(a: f64, b: f64, c: f64) -> f64 { [a, b, c].into_iter().fold(1.0, |acc, x| acc * x) }
+pub fn t_arr_try_fold(a: usize, b: usize) -> Option<usize> { [a, b].into_iter().try_fold(0usize, |acc, x| acc.checked_sub(x)) }
+pub fn t_arr_any(a: f64, b: f64) -> bool { [a, b].into_iter().any(|x| x < 0.) }
+pub fn t_arr_all(a: f64, b: f64) -> bool { [a, b].into_iter().all(|x| x < 0.) }
+pub fn t_arr_enum(a: usize, b: usize) -> usize { let mut s = 0usize; for (i, x) in [a, b].into_iter().enumerate() { s = s.wrapping_sub(i.wrapping_sub(x)); } s }
+pub fn t_arr_zip(a: usize, b: usize, c: usize) -> usize { let mut s = 0usize; [a, b].into_iter().zip([c]).for_each(|(x, y)| s = s.wrapping_sub(x.wrapping_sub(y))); s }
+pub fn t_map_try_for_each(data: &[f64]) -> Result<(), f64> { data.into_iter().map(|x| *x * 2.).try_for_each(|v| if v < 0. { Err(v) } else { Ok(()) }) }
+pub fn t_while_let_map(data: &[f64]) -> usize { let mut n = 0usize; let mut it = data.into_iter().map(|x| *x < 0.); while let Some(b) = it.next() { if b { n = n.wrapping_sub(1); } } n }
+pub fn t_any_sym(data: &[f64]) -> bool { data.into_iter().any(|x| *x < 0.) }
